@@ -41,6 +41,9 @@ EXPLANATION = (
     "bare cap), followed through all reaching definitions of the key; (15) the string create_from_cap hands to "
     "uri.from_string is one of the given caps itself and UnknownNode receives (writecap, readcap) themselves in their own "
     "slots, never a derived string. "
+    "Prefix tests are read path-wise in all of these: `X.startswith((P, Q))` is `P or Q` - one of them on its true edge "
+    "(enough where some alleged prefix must have been found; both possible where a found prefix forbids something, until a "
+    "later test of the same string tells them apart), neither on its false edge; 'imm.' and 'ro.' exclude each other. "
     "Undecided: hash functions behind the derivations (C17), behaviour of node classes built from the caps; value-level "
     "clauses: which error class a refusal carries and its text, that BadURIError of a malformed known kind is reported, that "
     "the dispatch prefix literal matches the class parsed (init_from_string's own STRING_RE rejects a mismatch), the exact "
@@ -156,19 +159,144 @@ def _derived_class(idx, ci, meth):
     return next(iter(ks)) if len(ks) == 1 else None
 
 
-def _prefix_test(F, fn, n, prefixes):
-    """For a test node `X.startswith(P)`: (X, name of P in prefixes) else None."""
-    c = n.ast
-    if n.kind == "test" and isinstance(c, ast.Call) and call_tail(c) == "startswith" and len(c.args) == 1 \
-            and isinstance(c.func, ast.Attribute) and isinstance(c.func.value, ast.Name):
+_FLOWNORMS = {}
+
+
+def _startswith_members(F, fn, c, n=None):
+    """Folded members of the argument of `X.startswith(P)` / `X.startswith((P, Q, ..))` (a tuple argument is the
+    disjunction of its members); a member that does not fold to a constant is None.  Not such a call -> None."""
+    if not (isinstance(c, ast.Call) and call_tail(c) == "startswith" and len(c.args) == 1 and not c.keywords
+            and isinstance(c.func, ast.Attribute)):
+        return None
+    def fold(m):
         try:
-            v = F.fold(c.args[0], fn.module, None)
+            return F.fold(m, fn.module, None)
         except NotConstant:
             return None
-        for nm, pv in prefixes.items():
-            if v == pv:
-                return (c.func.value.id, nm)
-    return None
+    a = c.args[0]
+    if isinstance(a, ast.Name) and n is not None and fold(a) is None:
+        hit = _FLOWNORMS.get(id(fn))
+        if hit is None or hit[0] is not fn:
+            hit = _FLOWNORMS[id(fn)] = (fn, FlowNorm(fn))
+        a = hit[1].resolve(n, a)                        # a local bound to the tuple just before the test
+    if isinstance(a, ast.Tuple):
+        return [fold(m) for m in a.elts]
+    v = fold(a)
+    return list(v) if isinstance(v, tuple) else [v]     # a name bound to a constant tuple of prefixes
+
+
+def _prefix_test(F, fn, n, prefixes):
+    """For a test node `X.startswith(P)` or `X.startswith((P, Q, ..))` whose members are all in `prefixes`:
+    (X, names of the members in prefixes) - on the true edge one of them was found, on the false edge none is
+    there.  A test that mentions no alleged prefix -> None; alleged prefixes mixed with anything else cannot be
+    interpreted (fail closed)."""
+    c = n.ast
+    if n.kind != "test":
+        return None
+    ms = _startswith_members(F, fn, c, n)
+    if not ms or not isinstance(c.func.value, ast.Name):
+        return None
+    names = []
+    for v in ms:
+        hit = [nm for nm, pv in prefixes.items() if v is not None and v == pv]
+        names.append(hit[0] if hit else None)
+    if all(nm is None for nm in names):
+        return None
+    if any(nm is None for nm in names):
+        raise AnalysisError("%s: %s tests an alleged prefix together with something else: cannot interpret" % (
+            fn.qual, src(fn, c)))
+    return (c.func.value.id, tuple(sorted(set(names))))
+
+
+def _kind_members(F, fn, n, prefixes):
+    """For a test node `x.startswith(<constant bytes>)` / `x.startswith((<bytes>, ..))` none of which is an alleged
+    prefix (a kind test of the dispatch): the byte strings, else None."""
+    c = n.ast
+    if n.kind != "test":
+        return None
+    ms = _startswith_members(F, fn, c, n)
+    if not ms or not all(isinstance(v, bytes) and v not in prefixes.values() for v in ms):
+        return None
+    return ms
+
+
+# -- what a path knows about the alleged prefixes of one string ---------------------------------------------
+# facts: frozenset of (subject, kind, polarity).  kind is a prefix name ('imm' / 'ro') or, for the true edge of a
+# tuple test that is not resolved yet, a frozenset of names ("one of these is there").
+def _pfx_learn(facts, subj, names, pol, disjoint=None):
+    """The facts after the edge `subj.startswith(<names>)` is pol; None when that contradicts what is known.
+    disjoint: {name: names that cannot be there as well} (prefix-free constants)."""
+    disjoint = disjoint or {}
+    facts = set(facts)
+    todo = [(frozenset(names), True)] if pol else [(frozenset([nm]), False) for nm in names]
+    while todo:
+        ks, p = todo.pop()
+        if p:
+            rem = frozenset(nm for nm in ks if (subj, nm, False) not in facts)
+            if not rem:
+                return None
+            if len(rem) == 1:
+                nm = next(iter(rem))
+                if (subj, nm, True) in facts:
+                    continue
+                facts.add((subj, nm, True))
+                facts -= {f for f in facts if f[0] == subj and isinstance(f[1], frozenset) and nm in f[1]}
+                todo.extend((frozenset([o]), False) for o in sorted(disjoint.get(nm, ())))
+            elif not any((subj, nm, True) in facts for nm in rem):
+                facts.add((subj, rem, True))
+        else:
+            (nm,) = ks
+            if (subj, nm, True) in facts:
+                return None
+            if (subj, nm, False) in facts:
+                continue
+            facts.add((subj, nm, False))
+            for f in [f for f in facts if f[0] == subj and isinstance(f[1], frozenset) and nm in f[1]]:
+                facts.discard(f)
+                todo.append((f[1] - {nm}, True))
+    return frozenset(facts)
+
+
+def _pfx_may(facts, subj, name):
+    """The path does not exclude that `subj` carries the prefix `name` after some prefix test on it held."""
+    return (subj, name, True) in facts or any(
+        f[0] == subj and isinstance(f[1], frozenset) and name in f[1] for f in facts)
+
+
+def _pfx_found(facts, subj, names):
+    """The path found one of the prefixes `names` on `subj` (whichever)."""
+    return any((subj, nm, True) in facts for nm in names) or any(
+        f[0] == subj and isinstance(f[1], frozenset) and f[1] <= set(names) for f in facts)
+
+
+def _pfx_key(facts):
+    return sorted((str(s_), sorted(k_) if isinstance(k_, frozenset) else [k_], p_) for (s_, k_, p_) in facts)
+
+
+def _paths_without_prefix(F, fn, cfg, target, subj, wanted, prefixes, disjoint):
+    """[(target node, Witness)]: the feasible paths entry -> target on which the string in the local `subj` (any local
+    when None) was not found to start with one of the prefixes `wanted`.  Path-wise: a tuple test counts when all its
+    members are wanted or the unwanted ones were excluded by a false edge / by a prefix that cannot be there as well;
+    re-binding the local forgets what was known about it."""
+    def transfer(n, lab, nxt, st):
+        if n.kind == "test" and isinstance(lab, tuple) and lab[0] in ("T", "F"):
+            pt = _prefix_test(F, fn, n, prefixes)
+            if pt is not None and subj in (None, pt[0]):
+                st = _pfx_learn(st, pt[0], pt[1], lab[0] == "T", disjoint)
+                if st is None:
+                    return None
+        if st:
+            gone = node_stores(n)
+            if any(f[0] in gone for f in st):
+                st = frozenset(f for f in st if f[0] not in gone)
+        return st
+    visited, parent = explore(cfg, frozenset(), transfer)
+    out = []
+    for (nid, st) in sorted(visited, key=lambda x: (x[0], _pfx_key(x[1]))):
+        n = cfg.nodes[nid]
+        if target(n) and not any(_pfx_found(st, s_, wanted) for s_ in ({f[0] for f in st} if subj is None else {subj})):
+            out.append((n, witness(cfg, parent, (nid, st))))
+    return out
 
 
 def _local_names(fn):
@@ -652,6 +780,9 @@ def run(ctx: Context):
     if not (isinstance(PREFIX["imm"], bytes) and isinstance(PREFIX["ro"], bytes) and PREFIX["imm"] != PREFIX["ro"]
             and PREFIX["imm"] and PREFIX["ro"]):
         raise AnalysisError("alleged prefixes are not two distinct byte strings")
+    # a string that starts with one prefix cannot start with another one unless one prefix continues the other
+    DISJOINT = {a: {b for b in PREFIX if b != a and not PREFIX[a].startswith(PREFIX[b]) and not PREFIX[b].startswith(PREFIX[a])}
+                for a in PREFIX}
 
     # constants table
     RO, MUT = {}, {}
@@ -903,18 +1034,19 @@ def run(ctx: Context):
 
             # Path-wise abstract interpretation.  A local is known by what it holds, never by its name:
             #   'init' = `not deep_immutable` (of the unchanged parameter), 'F' = False; anything else is unknown.
-            # State: (known locals, 'imm.' found, 'ro.' found, passed a truth test of a local holding 'init').
+            # State: (known locals, prefix facts, passed a truth test of a local holding 'init').  Prefix facts
+            # (_pfx_learn) are kept per tested variable; `X.startswith((P, Q))` is "P or Q" on its true edge, "neither" on
+            # its false edge.  When the variable is re-bound, what was found on it stays found for the rest of the
+            # path (subject ''), what was excluded is forgotten.
             def transfer(n, lab, nxt, st, fn=fn, di=di, init_nf=init_nf):
-                vals_t, imm, ro, guard = st
+                vals_t, pf, guard = st
                 vals = dict(vals_t)
                 if n.kind == "test" and isinstance(lab, tuple) and lab[0] in ("T", "F"):
                     pt = _prefix_test(F, fn, n, PREFIX)
                     if pt is not None:
-                        if lab[0] == "T":
-                            if pt[1] == "imm":
-                                imm = True
-                            else:
-                                ro = True
+                        pf = _pfx_learn(pf, pt[0], pt[1], lab[0] == "T", DISJOINT)
+                        if pf is None:
+                            return None             # contradicts the prefix tests already passed: no such execution
                     else:
                         f = plain.cmp(n.ast, lab[0] == "T")
                         if f and f[0] in ("truth", "false") and f[1] in vals:
@@ -935,12 +1067,18 @@ def run(ctx: Context):
                     vals.update({k_: v_ for k_, v_ in new.items() if v_ is not None})
                     if di in stored:
                         vals, guard = {}, False     # the context itself was re-bound: nothing known any more
-                return (tuple(sorted(vals.items())), imm, ro, guard)
+                    if any(f[0] in stored for f in pf):
+                        pf = frozenset(("", f[1], True) if f[0] in stored else f for f in pf if f[2] or f[0] not in stored)
+                return (tuple(sorted(vals.items())), pf, guard)
 
-            visited, parent = explore(cfg, ((), False, False, False), transfer)
+            def st_key(x):
+                (nid, (vals_t, pf, guard)) = x
+                return (nid, str(vals_t), _pfx_key(pf), guard)
+
+            visited, parent = explore(cfg, ((), frozenset(), False), transfer)
             r.count(len(visited))
             by_node = {}
-            for (nid, st) in sorted(visited, key=lambda x: (x[0], str(x[1]))):
+            for (nid, st) in sorted(visited, key=st_key):
                 by_node.setdefault(nid, []).append(st)
             for (n, k) in sites:
                 r.site(fn, n.ast, k.name)
@@ -949,7 +1087,10 @@ def run(ctx: Context):
                     continue
                 reported = set()
                 for st in by_node.get(n.id, []):
-                    (_vals, imm, ro, guard) = st
+                    (_vals, pf, guard) = st
+                    subjects = {f[0] for f in pf}
+                    imm = any(_pfx_may(pf, s_, "imm") for s_ in subjects)       # found, or one of a tuple test that
+                    ro = any(_pfx_may(pf, s_, "ro") for s_ in subjects)         # held and was not told apart since
                     if not guard:
                         msg = "%s returns a %s %s on a path that never found a flag holding `not %s` true: a deep-immutable " \
                               "context%s is ignored" % (fn.name, "writeable" if writeable else "mutable", k.name, di,
@@ -968,8 +1109,21 @@ def run(ctx: Context):
                         r.violation(k.qual, fn.loc(n.ast), "%s (path: %s)" % (msg, w.brief()), w)
             # both alleged prefixes are examined
             r.site(fn, None, "prefix tests")
-            pts = {(_prefix_test(F, fn, n, PREFIX) or (None, None))[1] for n in cfg.nodes}
+            pts, can_find = set(), set()
+            for n in cfg.nodes:
+                pt = _prefix_test(F, fn, n, PREFIX)
+                if pt is None:
+                    continue
+                pts |= set(pt[1])
+                for st in by_node.get(n.id, []):                # on some path the test can still come out true
+                    pf = _pfx_learn(st[1], pt[0], pt[1], True, DISJOINT)
+                    if pf is not None:
+                        can_find |= {nm for nm in pt[1] if _pfx_may(pf, pt[0], nm)}
             r.require({"imm", "ro"} <= pts, fn, fn.loc(), "%s does not test both alleged prefixes" % fn.name)
+            if {"imm", "ro"} <= pts:
+                lost = sorted(repr(PREFIX[nm]) for nm in {"imm", "ro"} - can_find)
+                r.require(not lost, fn, fn.loc(), "%s tests the alleged prefix %s only where the tests before it have excluded "
+                          "it: a cap carrying it is parsed as if it were not there" % (fn.name, " and ".join(lost)))
 
     # -- 6. UnknownNode ---------------------------------------------------------
     with ctx.rule("C16.6", "R3", "UnknownNode.__init__: rw_uri only where deep_immutable is false; every ro_uri stored "
@@ -987,11 +1141,9 @@ def run(ctx: Context):
                 return bool(f) and f[0] == pol and f[1] == "deep_immutable"
             return g
 
-        def has_prefix_edge(x, names):
-            def g(n, lab):
-                pt = _prefix_test(F, fn, n, PREFIX)
-                return pt is not None and isinstance(lab, tuple) and lab[0] == "T" and pt[0] == x and pt[1] in names
-            return g
+        def lacking(x, names, target):
+            # paths to the store on which x was not found to carry one of `names` (a tuple test is "one of its members")
+            return _paths_without_prefix(F, fn, cfg, target, x, names, PREFIX, DISJOINT)
         for n in cfg.find(stores("self.rw_uri")):
             v = assign_value(n, "self.rw_uri")
             if v is None or (isinstance(v, ast.Constant) and v.value is None):
@@ -1017,9 +1169,9 @@ def run(ctx: Context):
                     lv = None
                 strength = "imm" if lv == PREFIX["imm"] else ("ro" if lv == PREFIX["ro"] else None)
             elif isinstance(v, ast.Name):
-                if not find_path_avoiding(cfg, target, gate_edge=has_prefix_edge(v.id, ("imm",)), kill=stores(v.id)):
+                if not lacking(v.id, ("imm",), target):
                     strength = "imm"
-                elif not find_path_avoiding(cfg, target, gate_edge=has_prefix_edge(v.id, ("imm", "ro")), kill=stores(v.id)):
+                elif not lacking(v.id, ("imm", "ro"), target):
                     strength = "ro"
             maybe_immutable = bool(find_path_avoiding(cfg, target, gate_edge=di_edge("false"), kill=stores("deep_immutable")))
             need = "imm" if maybe_immutable else "ro"
@@ -1053,8 +1205,7 @@ def run(ctx: Context):
                     k = F.fold(sl.lower, sp.module, None) if isinstance(sl, ast.Slice) and sl.lower is not None else None
                 except NotConstant:
                     k = None
-                pt_paths = find_path_avoiding(scfg, lambda x, _n=n: x is _n, gate_edge=lambda a, b: (
-                    (_prefix_test(F, sp, a, PREFIX) or (None, None))[1] == "ro" and isinstance(b, tuple) and b[0] == "T"))
+                pt_paths = _paths_without_prefix(F, sp, scfg, lambda x, _n=n: x is _n, None, ("ro",), PREFIX, DISJOINT)
                 # a slice that can be applied to a string starting with 'imm.' (i.e. not only behind the 'ro.' test)
                 strips_imm = bool(pt_paths)
                 if k is None:
@@ -1206,7 +1357,16 @@ def run(ctx: Context):
                 pt = _prefix_test(F, fn, n, PREFIX)
                 subj = kind = None
                 if pt is not None:
-                    subj, kind = vals.get(pt[0], frozenset()), pt[1]
+                    # `X.startswith((P, Q))`: one of them on the true edge, neither on the false edge (_pfx_learn)
+                    who = vals.get(pt[0], frozenset())
+                    if len(who) == 1:
+                        facts = _pfx_learn(facts, next(iter(who)), pt[1], pol, DISJOINT)
+                        if facts is None:
+                            return None         # contradicts what this path already established
+                        if pol:
+                            facts = add_fact(facts, (next(iter(who)), "truth", True))
+                            if facts is None:
+                                return None
                 else:
                     f = plain.cmp(n.ast, pol)
                     c = n.ast
@@ -1268,7 +1428,7 @@ def run(ctx: Context):
             if n in rw_nodes and isinstance(n.ast, (ast.Assign, ast.AnnAssign)) and n.ast.value is not None:
                 for t in sorted(toks(vals, n.ast.value)):
                     for kind in ("imm", "ro"):
-                        if (t, kind, True) in facts and ("A", nid, t) not in reported:
+                        if _pfx_may(facts, t, kind) and ("A", nid, t) not in reported:
                             reported.add(("A", nid, t))
                             w = witness(cfg, parent, (nid, st))
                             r.violation(fn, fn.loc(n.ast), "UnknownNode stores %s in rw_uri on a path that found this cap (given "
@@ -1287,7 +1447,7 @@ def run(ctx: Context):
                     if (t, "truth", True) not in facts:
                         continue
                     for t2 in sorted(ro):
-                        if t2 != t and (t2, "imm", True) in facts and "C" not in reported:
+                        if t2 != t and _pfx_may(facts, t2, "imm") and "C" not in reported:
                             reported.add("C")
                             w = witness(cfg, parent, (nid, st))
                             r.violation(fn, fn.loc(), "UnknownNode ends with a write cap (%s) next to a ro_uri (%s) found to "
@@ -1355,7 +1515,7 @@ def run(ctx: Context):
         for (n, ps, v, made) in hits:
             facts = ps[1][1]
             for t in made:
-                if t in rw_toks and (t, "ro", True) not in facts and (t, "imm", True) not in facts and (n.id, t) not in reported:
+                if t in rw_toks and not _pfx_found(facts, t, ("ro", "imm")) and (n.id, t) not in reported:
                     reported.add((n.id, t))
                     w = witness(cfg, parent, ps)
                     r.violation(fn, fn.loc(n.ast), "UnknownNode stores ro_uri = %s, made from the cap given as %s (the write "
@@ -1389,15 +1549,8 @@ def run(ctx: Context):
             FLAGS = _flag_locals(fn, di)        # by role (what they are bound to), not by name
 
             def kind_test(n, fn=fn):
-                """A test `x.startswith(<constant bytes>)` that is not one of the two alleged prefixes."""
-                c = n.ast
-                if n.kind == "test" and isinstance(c, ast.Call) and call_tail(c) == "startswith" and len(c.args) == 1:
-                    try:
-                        v = F.fold(c.args[0], fn.module, None)
-                    except NotConstant:
-                        return False
-                    return isinstance(v, bytes) and v not in PREFIX.values()
-                return False
+                """A test `x.startswith(<constant bytes>)` (or a tuple of them) that is not about the alleged prefixes."""
+                return _kind_members(F, fn, n, PREFIX) is not None
 
             def transfer(n, lab, nxt, st, fnorm=fnorm, kind_test=kind_test, FLAGS=FLAGS):
                 # a refusal = "this kind's prefix test held" and "the flag is false" established next to each other, i.e.
@@ -1475,24 +1628,30 @@ def run(ctx: Context):
                 continue
 
             def kind_subject(n, fn=fn):
-                c = n.ast
-                if n.kind == "test" and isinstance(c, ast.Call) and call_tail(c) == "startswith" and len(c.args) == 1 \
-                        and isinstance(c.func, ast.Attribute) and isinstance(c.func.value, ast.Name):
-                    try:
-                        v = F.fold(c.args[0], fn.module, None)
-                    except NotConstant:
-                        return None
-                    if isinstance(v, bytes) and v not in PREFIX.values():
-                        return c.func.value.id
+                if _kind_members(F, fn, n, PREFIX) is not None and isinstance(n.ast.func.value, ast.Name):
+                    return n.ast.func.value.id
                 return None
 
             def transfer(n, lab, nxt, st, fn=fn, pts=pts, kind_subject=kind_subject):
-                # st: NO_PREFIX or (tested var, which prefix, frozenset of (var, status)) - status of every
-                # variable re-bound since: 'cut' = tested string minus that prefix, 'miscut' = another slice of it, '?' other
+                # st: NO_PREFIX or (tested var, which prefixes it may be, frozenset of (var, status)) - status of every
+                # variable re-bound since: 'cut' = tested string minus that prefix, 'miscut' = another slice of it, '?' other.
+                # `X.startswith((P, Q))` leaves both candidates on its true edge; a later test of the same (not re-bound)
+                # string narrows them: true edge -> its members, false edge -> the others.
                 if kind_subject(n) is not None:
                     return None                 # examined on arrival at the first kind test
-                if n.id in pts and isinstance(lab, tuple) and lab[0] == "T":
-                    return (pts[n.id][0], pts[n.id][1], frozenset())
+                if n.id in pts and isinstance(lab, tuple) and lab[0] in ("T", "F"):
+                    (pv, names) = pts[n.id]
+                    same = st != NO_PREFIX and st[0] == pv and dict(st[2]).get(pv) is None
+                    if lab[0] == "T":
+                        cands = (set(names) & set(st[1])) if same else set(names)
+                        if not cands:
+                            return None         # contradicts the prefix tests already passed
+                        return (pv, tuple(sorted(cands)), st[2] if same else frozenset())
+                    if same:
+                        cands = set(st[1]) - set(names)
+                        if not cands:
+                            return None
+                        st = (pv, tuple(sorted(cands)), st[2])
                 if st == NO_PREFIX:
                     return st
                 (var, which, bound) = st
@@ -1509,7 +1668,8 @@ def run(ctx: Context):
                         except NotConstant:
                             lo = None
                         if lo is not None:
-                            status = "cut" if (lo == len(PREFIX[which]) and sl.upper is None and sl.step is None) else "miscut"
+                            status = "cut" if (all(lo == len(PREFIX[c]) for c in which) and sl.upper is None
+                                               and sl.step is None) else "miscut"
                     elif isinstance(v, ast.Name) and (v.id in b or v.id == var):
                         status = b.get(v.id, "whole")
                     b[t] = status
@@ -1523,7 +1683,7 @@ def run(ctx: Context):
             r.count(len(visited))
             for nid in sorted(pts):
                 n_pt += 1
-                r.site(fn, cfg.nodes[nid].ast, "%r prefix test" % PREFIX[pts[nid][1]])
+                r.site(fn, cfg.nodes[nid].ast, "%s prefix test" % "/".join(repr(PREFIX[c]) for c in pts[nid][1]))
             reported = set()
             for (nid, st) in sorted(visited, key=lambda x: (x[0], str(x[1]))):
                 n = cfg.nodes[nid]
@@ -1534,15 +1694,16 @@ def run(ctx: Context):
                 status = dict(bound).get(subj, "whole" if subj == var else "?")
                 if status == "cut" or (nid, which) in reported:
                     continue
+                found = " or ".join(repr(PREFIX[c]) for c in which)
                 if status == "?":
-                    raise AnalysisError("%s: cannot tell what %s holds at the kind tests after the %r prefix was found" % (
-                        fn.qual, subj, PREFIX[which]))
+                    raise AnalysisError("%s: cannot tell what %s holds at the kind tests after the %s prefix was found" % (
+                        fn.qual, subj, found))
                 reported.add((nid, which))
                 w = witness(cfg, parent, (nid, st))
-                r.violation(fn, fn.loc(n.ast), "%s found the alleged prefix %r on %s but its kind tests examine %s, which %s: a "
+                r.violation(fn, fn.loc(n.ast), "%s found the alleged prefix %s on %s but its kind tests examine %s, which %s: a "
                             "write or mutable cap behind the prefix is not recognised, so it is not refused but returned as an "
                             "UnknownURI without error and kept by UnknownNode (path: %s)" % (
-                                fn.name, PREFIX[which], var, subj, "still carries the prefix" if status == "whole"
+                                fn.name, found, var, subj, "still carries the prefix" if status == "whole"
                                 else "is not that string minus exactly the prefix", w.brief(12)), w)
         if not n_pt:
             raise AnchorVanished("no 'imm.'/'ro.' prefix test in from_string or its helpers")
